@@ -139,6 +139,8 @@ func c08(c *Ctx) {
 			c08headers(c, h.u, h.decl, h.mode, ch, node)
 		}
 	}
+	// the TS client over the placement catalogue (every kind and cardinality in path and query)
+	c08placement(c, node)
 }
 
 func c08values(md protoreflect.MessageDescriptor, rc *corpus.RouteCase) []struct {
